@@ -8,6 +8,7 @@ CONSTANTS
     BgAllFiles = TRUE
     WaitHonoursTimeout = TRUE
     ThresholdOnEffective = TRUE
+    FailOnCacheError = TRUE
     AllowReg = FALSE
 SPECIFICATION FairSpec
 PROPERTIES WaitReturns
